@@ -1,4 +1,10 @@
-"""C02 - Tag streams are self-delimiting: framing is total, canonical and balanced."""
+"""C02 - Tag streams are self-delimiting: framing is total, canonical and balanced.
+
+Oracles: algebraic (round trip, every octet consumed, decode/encode fixed point) and a
+reference model of clause 20.2.1 written from the standard (vf/ref/C02_tags.py).
+Exceptions other than the ones an oracle names escape the harness on purpose: the engine
+reports them as violation kind `escaped-exception` (exc / where / msg in the signature).
+"""
 from ..api import Inst, Violation, meta
 from ..ref import C02_tags as R
 
@@ -10,13 +16,13 @@ from bacpypes.errors import InvalidTag, DecodingError
 
 APP, CTX, OPEN, CLOSE = R.APP, R.CTX, R.OPEN, R.CLOSE
 KINDS = ['app', 'bool', 'ctx', 'open', 'close']
-CLS_OF = {'app': APP, 'bool': APP, 'ctx': CTX, 'open': OPEN, 'close': CLOSE}
+BIG = [252, 253, 254, 255, 65535, 65536, 70000]
 
 
 # ---------------------------------------------------------------- helpers
 
 def make_tag(kind, num, data, value=0):
-    """build a tag through the public constructors.  returns (tag, class, number, lvt, data)"""
+    """build a tag through the public constructors -> (tag, class, number, lvt, contents)"""
     if kind == 'app':
         return ApplicationTag(num, data), APP, num, len(data), data
     if kind == 'bool':
@@ -30,10 +36,552 @@ def make_tag(kind, num, data, value=0):
     raise AssertionError(kind)
 
 
-def fields(t):
-    return (t.tagClass, t.tagNumber, t.tagLVT, bytes(t.tagData))
-
-
 def same_tag(t, cls, num, lvt, data):
     return (t.tagClass == cls and t.tagNumber == num and t.tagLVT == lvt
             and bytes(t.tagData) == bytes(data))
+
+
+def same_tags(a, b):
+    return (a.tagClass == b.tagClass and a.tagNumber == b.tagNumber and a.tagLVT == b.tagLVT
+            and bytes(a.tagData) == bytes(b.tagData))
+
+
+class Watched(PDUData):
+    """PDUData that counts the read calls made on it: a decoder that stops consuming
+    (the statement's "never loops") is reported instead of hanging the path."""
+
+    def __init__(self, data, limit):
+        PDUData.__init__(self, data)
+        self.reads = 0
+        self.limit = limit
+
+    def _tick(self):
+        self.reads += 1
+        if self.reads > self.limit:
+            raise Violation("does-not-terminate", reads=self.reads)
+
+    def get(self):
+        self._tick()
+        return PDUData.get(self)
+
+    def get_data(self, dlen):
+        self._tick()
+        return PDUData.get_data(self, dlen)
+
+
+def listed(data, lo, hi):
+    """the same octets held as a Python list of (symbolic) ints of concrete length: forks once
+    per length, after which the engine works with cheap list operations instead of a
+    solver-level sequence (`del pduData[0]` on the latter costs ~100 queries)"""
+    n = hi
+    for k in range(lo, hi):
+        if len(data) == k:
+            n = k
+            break
+    return bytes([data[i] for i in range(n)])
+
+
+def draw_number(d, numcls, name):
+    if numcls == 'lo':
+        return d.int(0, 14, name)
+    if numcls == 'hi':
+        return d.int(15, 254, name)
+    return d.int(0, 254, name)
+
+
+def draw_tag(d, kinds, lens, numcls, i=''):
+    """one tag: kind symbolic over `kinds`, number symbolic (0..254, or only 0..14 / only
+    15..254 when the instance shares one number class), content length symbolic over `lens`
+    with symbolic octets"""
+    kind = d.pick(kinds, 'kind%s' % i)
+    if kind == 'bool':
+        return make_tag(kind, 1, b'', d.int(0, 1, 'value%s' % i))
+    num = draw_number(d, numcls, 'num%s' % i)
+    if kind == 'app':
+        d.assume(num != 1)          # application tag 1 is the boolean: kind 'bool'
+    data = b''
+    if kind in ('app', 'ctx'):
+        k = d.pick(lens, 'len%s' % i)
+        raw = d.bytes(k, k, 'data%s' % i)
+        data = bytes([raw[j] for j in range(k)])
+    return make_tag(kind, num, data)
+
+
+def big_data(d, n):
+    """n content octets: 12 symbolic ones (first 4, 4 spread inside, last 4), the rest a
+    position dependent fill (a shift by one octet changes every value)"""
+    sym = d.bytes(12, 12, 'sym')
+    out = [(i * 7 + 3) % 251 for i in range(n)]
+    where = [0, 1, 2, 3, n // 4, n // 2, n // 2 + 1, (3 * n) // 4, n - 4, n - 3, n - 2, n - 1]
+    for k, w in enumerate(where):
+        out[w] = sym[k]
+    # a list of ints (some symbolic) keeps the engine on cheap list operations; a
+    # solver-level sequence of 70000 free octets costs ~4 queries per octet
+    return bytes(out)
+
+
+# ---------------------------------------------------------------- tag_rt
+
+@meta(bounds="one instance per kind (application with data, application boolean, context, opening, closing) x "
+             "size; tag number symbolic 0..254 (application: != 1, the boolean has its own instance with value "
+             "0/1 symbolic); size 'small' = content length symbolic 0..8 with every octet symbolic; sizes 252, 253, "
+             "254, 255, 65535, 65536, 70000 = exactly that many content octets of which 12 are symbolic (first 4, "
+             "last 4, 4 inside) and the rest a position dependent fill pattern (a fully symbolic 70000-octet "
+             "buffer costs ~4 solver queries per octet); 0..2 symbolic octets follow the tag in the buffer",
+      outside="content lengths 9..251 and large lengths other than the seven listed; more than 12 free octets in "
+              "the large contents; tag number 255 (reserved by the standard)")
+def tag_rt(d, kind, size):
+    value = 0
+    num = 1
+    data = b''
+    if kind == 'bool':
+        value = d.int(0, 1, 'value')
+    else:
+        num = d.int(0, 254, 'num')
+        if kind == 'app':
+            d.assume(num != 1)
+        if kind in ('app', 'ctx'):
+            data = listed(d.bytes(0, 8, 'data'), 0, 8) if size == 'small' else big_data(d, size)
+    tail = listed(d.bytes(0, 2, 'tail'), 0, 2)
+    t, cls, num, lvt, data = make_tag(kind, num, data, value)
+
+    pdu = PDUData()
+    t.encode(pdu)
+    octets = bytes(pdu.pduData)
+    hdr = bytes(R.header(cls, num, lvt))
+    h = len(hdr)
+    if len(octets) != h + len(data) or octets[:h] != hdr:
+        raise Violation("header", kind=kind, num=num, lvt=lvt, got=octets[:8], want=hdr)
+    if octets[h:] != bytes(data):
+        raise Violation("contents", kind=kind, num=num, lvt=lvt)
+
+    # alone in the buffer: decodes to the same tag, nothing left
+    p2 = PDUData(octets)
+    try:
+        t2 = Tag(p2)
+    except InvalidTag:
+        raise Violation("own-encoding-refused", kind=kind, num=num, lvt=lvt)
+    if not same_tag(t2, cls, num, lvt, data):
+        raise Violation("roundtrip", kind=kind, num=num, lvt=lvt,
+                        got=(t2.tagClass, t2.tagNumber, t2.tagLVT))
+    if len(p2.pduData) != 0:
+        raise Violation("octets-left", kind=kind, num=num, lvt=lvt, left=len(p2.pduData))
+
+    # followed by other octets: takes exactly its own octets (through the class that the
+    # library offers for this kind of tag)
+    p3 = PDUData(octets + bytes(tail))
+    klass = {'app': ApplicationTag, 'bool': ApplicationTag, 'ctx': ContextTag,
+             'open': OpeningTag, 'close': ClosingTag}[kind]
+    try:
+        t3 = klass(p3)
+    except InvalidTag:
+        raise Violation("own-encoding-refused", kind=kind, num=num, lvt=lvt, tail=tail)
+    if not same_tag(t3, cls, num, lvt, data):
+        raise Violation("roundtrip-with-tail", kind=kind, num=num, lvt=lvt, tail=tail)
+    if bytes(p3.pduData) != bytes(tail):
+        raise Violation("not-self-delimiting", kind=kind, num=num, lvt=lvt, tail=tail,
+                        left=bytes(p3.pduData))
+    d.reach()
+
+
+# ---------------------------------------------------------------- taglist_rt
+
+@meta(bounds="lists of every length nlo..nhi; every tag: kind symbolic over {application, application boolean, "
+             "context, opening, closing} (the first tag's kind over the instance's `first` subset: a split, the "
+             "union is all five), number symbolic, content length symbolic over `lens` with symbolic octets.  "
+             "quick: lengths 0..1 with numbers 0..254 and content 0..6 octets; length 2 with numbers 0..254 and "
+             "content lengths {0,1,4,5}; length 3 with content lengths {0,5} and one number class per instance "
+             "(all 0..14 or all 15..254).  thorough: length 3 with numbers 0..254 and content lengths {0,1,5}; "
+             "length 4 with content lengths {0,5} and one number class per instance",
+      outside="longer lists; other content lengths inside a list (tag_rt covers single tags of every length class "
+              "followed by arbitrary octets); lists of 3 (quick) / 4 (thorough) tags that mix one-octet and "
+              "extended tag numbers")
+def taglist_rt(d, nlo, nhi, first, lens, numcls):
+    n = d.int(nlo, nhi, 'n') if nlo != nhi else nlo
+    tags = []
+    for i in range(nhi):
+        if i >= n:
+            break
+        tags.append(draw_tag(d, first if i == 0 else KINDS, lens, numcls, i))
+    n = len(tags)
+    tl = TagList([t[0] for t in tags])
+    pdu = PDUData()
+    tl.encode(pdu)
+    octets = bytes(pdu.pduData)
+    want = []
+    for _, cls, num, lvt, data in tags:
+        want = want + R.header(cls, num, lvt) + [data[j] for j in range(len(data))]
+    if octets != bytes(want):
+        raise Violation("layout", n=n, got=octets, want=bytes(want))
+
+    p2 = Watched(octets, 8 * (n + 1))
+    try:
+        back = TagList(p2)          # the constructor form runs TagList.decode
+    except InvalidTag:
+        raise Violation("own-encoding-refused", n=n, octets=octets)
+    if len(p2.pduData) != 0:
+        raise Violation("octets-left", n=n, octets=octets)
+    if len(back.tagList) != n:
+        raise Violation("list-length", n=n, got=len(back.tagList), octets=octets)
+    for i in range(n):
+        _, cls, num, lvt, data = tags[i]
+        if not same_tag(back.tagList[i], cls, num, lvt, data):
+            raise Violation("roundtrip", n=n, index=i, octets=octets)
+    d.reach()
+
+
+# ---------------------------------------------------------------- hostile octets
+
+def check_stream(d, data, maxlen):
+    """oracle for TagList.decode on arbitrary octets (decode_total, decode_mutated)"""
+    pdu = Watched(data, 8 * (maxlen + 1))
+    tl = TagList()
+    try:
+        tl.decode(pdu)
+        refused = False
+    except InvalidTag:
+        refused = True
+    verdict, toks = R.tokenize(data)
+    if refused:
+        if verdict == R.CANONICAL:
+            raise Violation("refused-wellformed", data=data)
+        d.reach()
+        return
+    if len(pdu.pduData) != 0:
+        raise Violation("octets-left", data=data, left=len(pdu.pduData))
+    if verdict == R.TRUNCATED:
+        raise Violation("accepted-truncated", data=data, tags=len(tl.tagList))
+    got = tl.tagList
+    if len(got) != len(toks):
+        raise Violation("tag-count", data=data, got=len(got), want=len(toks))
+    for i, p in enumerate(toks):
+        if not same_tag(got[i], p.cls, p.num, p.lvt, data[p.start:p.end]):
+            raise Violation("misparsed", data=data, index=i,
+                            got=(got[i].tagClass, got[i].tagNumber, got[i].tagLVT))
+    # fixed point: re-encoding decodes to the same list
+    p2 = PDUData()
+    TagList(list(got)).encode(p2)
+    enc = bytes(p2.pduData)
+    if verdict == R.CANONICAL:
+        # a canonical stream is the encoding of its tag list: re-encoding must give back
+        # the input, and decoding the input again is the computation already checked
+        if enc != bytes(data):
+            raise Violation("reencode-differs", data=data, got=enc)
+        d.reach()
+        return
+    p3 = Watched(enc, 8 * (maxlen + 1))
+    again = TagList()
+    try:
+        again.decode(p3)
+    except InvalidTag:
+        raise Violation("reencoding-refused", data=data, enc=enc)
+    if len(p3.pduData) != 0 or len(again.tagList) != len(got):
+        raise Violation("not-fixed-point", data=data, enc=enc, why="length")
+    for i in range(len(got)):
+        if not same_tags(again.tagList[i], got[i]):
+            raise Violation("not-fixed-point", data=data, enc=enc, index=i)
+    d.reach()
+
+
+def restrict(d, data, m, lows, sub):
+    """instance split on the leading octets: first octet % m in `lows`; sub None = no further
+    split, sub 0 = fewer than two octets or second octet's low nibble < 6 (a data-carrying
+    form), sub 1 = the rest.  The empty string belongs to the part with 0 in lows, sub None/0."""
+    if len(data) == 0:
+        d.assume(0 in lows and sub != 1)
+        return
+    r = data[0] % m
+    ok = False
+    for k in lows:
+        if r == k:
+            ok = True
+            break
+    d.assume(ok)
+    if sub is not None:
+        if len(data) < 2:
+            d.assume(sub == 0)
+        elif sub == 0:
+            d.assume(data[1] % 16 % 8 < 6)
+        else:
+            d.assume(data[1] % 16 % 8 >= 6)
+
+
+@meta(bounds="EVERY octet string of length lo..n (n=3 quick, 4 thorough; length and every octet symbolic), split "
+             "into instances by the low nibble (class bit + length/value/type bits) of the first octet and, for "
+             "the larger parts, by the second octet being an opening/closing form or not; the empty string is in "
+             "the part of low nibble 0.  Instances labelled `attempt` (length exactly 5, thorough) go beyond the "
+             "property's own bound and are expected to stay inconclusive where the tree is too large",
+      outside="octet strings longer than n (longer hostile strings: decode_one for a single tag up to 7 octets, "
+              "decode_mutated for de-synchronised valid streams)")
+def decode_total(d, n, lows, sub=None, lo=0):
+    data = listed(d.bytes(lo, n, 'octets'), lo, n)
+    restrict(d, data, 16, lows, sub)
+    check_stream(d, data, n)
+
+
+@meta(bounds="a single Tag decoded from EVERY octet string of length 0..n (n=7: long enough for extended number + "
+             "255-escape + 4 length octets + content), length and every octet symbolic; split by the low 3 bits "
+             "of the first octet (empty string in the part of 0)",
+      outside="buffers longer than n octets")
+def decode_one(d, n, lows, sub=None):
+    data = listed(d.bytes(0, n, 'octets'), 0, n)
+    restrict(d, data, 8, lows, sub)
+    pdu = Watched(data, 16)
+    t = None
+    try:
+        t = Tag(pdu)
+    except InvalidTag:
+        pass
+    p = R.parse(data)
+    if p is None:
+        if t is not None:
+            raise Violation("accepted-truncated", data=data, got=(t.tagClass, t.tagNumber, t.tagLVT))
+        d.reach()
+        return
+    if t is None:
+        if p.canonical:
+            raise Violation("refused-wellformed", data=data)
+        d.reach()       # complete but not canonical: refusing is within the statement
+        return
+    if not same_tag(t, p.cls, p.num, p.lvt, data[p.start:p.end]):
+        raise Violation("misparsed", data=data, got=(t.tagClass, t.tagNumber, t.tagLVT),
+                        want=(p.cls, p.num, p.lvt))
+    if bytes(pdu.pduData) != bytes(data[p.end:]):
+        raise Violation("consumed", data=data, left=len(pdu.pduData), want=len(data) - p.end)
+    # fixed point of the one tag
+    p2 = PDUData()
+    t.encode(p2)
+    enc = bytes(p2.pduData)
+    if p.canonical:
+        if enc != bytes(data[:p.end]):
+            raise Violation("reencode-differs", data=data, got=enc)
+        d.reach()
+        return
+    p3 = PDUData(enc)
+    try:
+        t2 = Tag(p3)
+    except InvalidTag:
+        raise Violation("reencoding-refused", data=data, enc=enc)
+    if not same_tags(t2, t) or len(p3.pduData) != 0:
+        raise Violation("not-fixed-point", data=data, enc=enc)
+    d.reach()
+
+
+# shapes of the valid streams that decode_mutated damages: (kind, number class, content length)
+# number class 'lo' = symbolic 0..14 (one header octet), 'hi' = symbolic 15..254 (extension octet)
+SHAPES = {
+    'group': [('ctx', 'lo', 2), ('open', 'lo', 0), ('app', 'lo', 1), ('close', 'lo', 0)],
+    'escape': [('app', 'lo', 5), ('bool', 'lo', 0), ('ctx', 'hi', 1)],
+    'ext': [('open', 'hi', 0), ('ctx', 'hi', 0), ('close', 'hi', 0), ('app', 'lo', 2)],
+}
+CLS_OF = {'app': APP, 'bool': APP, 'ctx': CTX, 'open': OPEN, 'close': CLOSE}
+
+
+@meta(bounds="valid streams (built with the reference encoder of clause 20.2.1) of 3-4 tags of three fixed shapes "
+             "(group: ctx/2 open app/1 close; escape: app/5 bool ctx-extended/1; ext: open-ext ctx-ext close-ext "
+             "app/2) with symbolic tag numbers (0..14 or 15..254 as the shape says) and symbolic content octets, "
+             "damaged by ONE edit: an octet replaced by / inserted as a symbolic octet, or removed, at every "
+             "position (enumerated through a symbolic index); same oracle as decode_total including the "
+             "reference tokenizer",
+      outside="other shapes; more than one edit")
+def decode_mutated(d, shape, op):
+    stream = []
+    for i, (kind, ncls, dlen) in enumerate(SHAPES[shape]):
+        if kind == 'bool':
+            stream = stream + R.header(APP, 1, d.int(0, 1, 'value%d' % i))
+            continue
+        num = draw_number(d, ncls, 'num%d' % i)
+        if kind == 'app':
+            d.assume(num != 1)
+        raw = d.bytes(dlen, dlen, 'data%d' % i) if dlen else b''
+        stream = stream + R.header(CLS_OF[kind], num, dlen) + [raw[j] for j in range(dlen)]
+    size = len(stream)
+    if op == 'insert':
+        pos = d.index(size + 1, 'pos')
+        bad = stream[:pos] + [d.int(0, 255, 'x')] + stream[pos:]
+    elif op == 'replace':
+        pos = d.index(size, 'pos')
+        x = d.int(0, 255, 'x')
+        d.assume(x != stream[pos])
+        bad = stream[:pos] + [x] + stream[pos + 1:]
+    else:
+        pos = d.index(size, 'pos')
+        bad = stream[:pos] + stream[pos + 1:]
+    d.note(pos=pos, op=op)
+    check_stream(d, bytes(bad), size + 1)
+
+
+# ---------------------------------------------------------------- nesting
+
+ALPHABETS = {
+    'all': [APP, CTX, OPEN, CLOSE],
+    'brackets': [OPEN, CLOSE],
+    'ctx+brackets': [CTX, OPEN, CLOSE],
+}
+
+
+def build_list(d, lo, hi, alphabet, prefix):
+    """tags of symbolic class over the alphabet (the first len(prefix) classes fixed by the
+    instance), symbolic number 0..2; application/context tags carry their index as content
+    so that every tag of the list is distinguishable"""
+    n = d.int(lo, hi, 'len') if lo != hi else lo
+    classes, numbers, tags = [], [], []
+    for i in range(hi):
+        if i >= n:
+            break
+        c = prefix[i] if i < len(prefix) else d.pick(alphabet, 'class%d' % i)
+        if c == APP:
+            num = 2
+            t = ApplicationTag(num, bytes([i]))
+        else:
+            num = d.int(0, 2, 'num%d' % i)
+            t = ContextTag(num, bytes([i])) if c == CTX else (OpeningTag(num) if c == OPEN else ClosingTag(num))
+        classes.append(c)
+        numbers.append(num)
+        tags.append(t)
+    return classes, numbers, tags
+
+
+@meta(bounds="tag lists of every length lo..hi whose classes are symbolic over the instance's alphabet (all = "
+             "application/context/opening/closing; ctx+brackets; brackets = opening/closing only, which reaches "
+             "balanced depth 4 and 5) and whose context/opening/closing numbers are symbolic 0..2; context number "
+             "asked for symbolic 0..2; instances are split by the classes of the first tags",
+      outside="longer lists (all: > 5 quick / 6 thorough; ctx+brackets: > 8; brackets: > 10); tag numbers above 2 "
+              "(only equality with the requested context matters); whether the closing tag's number equals the "
+              "opening tag's (the statement asks for balance only)")
+def nesting(d, lo, hi, alphabet, prefix):
+    classes, numbers, tags = build_list(d, lo, hi, ALPHABETS[alphabet], prefix)
+    context = d.int(0, 2, 'context')
+    shape = "".join("ACOK"[c] for c in classes)
+
+    # --- TagList.get_context
+    want = R.find_context(classes, numbers, context)
+    tl = TagList(list(tags))
+    got = None
+    refused = False
+    try:
+        got = tl.get_context(context)
+    except (InvalidTag, DecodingError):
+        refused = True
+    if want[0] == 'invalid':
+        if not refused:
+            raise Violation("unbalanced-accepted", shape=shape, context=context, numbers=numbers)
+    elif refused:
+        raise Violation("balanced-refused", shape=shape, context=context, numbers=numbers, want=want[0])
+    elif want[0] == 'none':
+        if got is not None:
+            raise Violation("found-absent-context", shape=shape, context=context, numbers=numbers)
+    elif want[0] == 'tag':
+        if not isinstance(got, Tag) or not same_tags(got, tags[want[1]]):
+            raise Violation("wrong-element", shape=shape, context=context, numbers=numbers, want=want[1])
+    else:
+        _, i, j = want
+        if not isinstance(got, TagList):
+            raise Violation("group-not-extracted", shape=shape, context=context, numbers=numbers)
+        inner = got.tagList
+        if len(inner) != j - i - 1:
+            raise Violation("group-extent", shape=shape, context=context, numbers=numbers,
+                            got=len(inner), want=j - i - 1)
+        for k in range(len(inner)):
+            if not same_tags(inner[k], tags[i + 1 + k]):
+                raise Violation("group-content", shape=shape, context=context, numbers=numbers, index=k)
+    if len(tl.tagList) != len(tags):
+        raise Violation("get-context-consumed", shape=shape)
+
+    # --- Any.decode / Any.encode
+    k, balanced = R.any_prefix(classes)
+    src = TagList(list(tags))
+    a = Any()
+    refused = False
+    try:
+        a.decode(src)
+    except (InvalidTag, DecodingError):
+        refused = True
+    if not balanced:
+        if not refused:
+            raise Violation("any-unbalanced-accepted", shape=shape)
+    else:
+        if refused:
+            raise Violation("any-balanced-refused", shape=shape)
+        taken = a.tagList.tagList
+        if len(taken) != k or len(src.tagList) != len(tags) - k:
+            raise Violation("any-extent", shape=shape, got=len(taken), want=k, left=len(src.tagList))
+        for i in range(k):
+            if not same_tags(taken[i], tags[i]):
+                raise Violation("any-content", shape=shape, index=i)
+        for i in range(len(tags) - k):
+            if not same_tags(src.tagList[i], tags[k + i]):
+                raise Violation("any-rest", shape=shape, index=i)
+        out = TagList()
+        a.encode(out)
+        if len(out.tagList) != k:
+            raise Violation("any-encode", shape=shape, got=len(out.tagList), want=k)
+        for i in range(k):
+            if not same_tags(out.tagList[i], tags[i]):
+                raise Violation("any-encode", shape=shape, index=i)
+    d.reach()
+
+
+# ---------------------------------------------------------------- instances
+
+def instances(tier):
+    q = tier == "quick"
+    out = []
+    b = 60 if q else 300
+    # tag_rt
+    for kind in KINDS:
+        out.append(Inst(tag_rt, dict(kind=kind, size='small'), budget=b))
+    for kind in ('app', 'ctx'):
+        for size in BIG:
+            out.append(Inst(tag_rt, dict(kind=kind, size=size), budget=b, path_timeout=120))
+    # taglist_rt
+    full = [0, 1, 2, 3, 4, 5, 6]
+    halves = [['app', 'ctx'], ['bool', 'open', 'close']]
+    out.append(Inst(taglist_rt, dict(nlo=0, nhi=1, first=KINDS, lens=full, numcls='any'), budget=b, label="n=0..1"))
+    if q:
+        for k, first in enumerate(halves):
+            out.append(Inst(taglist_rt, dict(nlo=2, nhi=2, first=first, lens=[0, 1, 4, 5], numcls='any'),
+                            budget=b, label="n=2,part=%d" % k))
+        for numcls in ('lo', 'hi'):
+            for k, first in enumerate(halves):
+                out.append(Inst(taglist_rt, dict(nlo=3, nhi=3, first=first, lens=[0, 5], numcls=numcls),
+                                budget=b, label="n=3,numbers=%s,part=%d" % (numcls, k)))
+    else:
+        for first in KINDS:
+            out.append(Inst(taglist_rt, dict(nlo=2, nhi=2, first=[first], lens=full, numcls='any'),
+                            budget=b, label="n=2,first=%s" % first))
+            out.append(Inst(taglist_rt, dict(nlo=3, nhi=3, first=[first], lens=[0, 1, 5], numcls='any'),
+                            budget=b, label="n=3,first=%s" % first))
+            for numcls in ('lo', 'hi'):
+                out.append(Inst(taglist_rt, dict(nlo=4, nhi=4, first=[first], lens=[0, 5], numcls=numcls),
+                                budget=b, label="n=4,numbers=%s,first=%s" % (numcls, first)))
+    # decode_total
+    if q:
+        for lows in ([0], [1], [2], [3], [4], [5, 9, 10, 11, 12, 13], [6], [7], [8], [14], [15]):
+            out.append(Inst(decode_total, dict(n=3, lows=lows), budget=b))
+    else:
+        for low in range(16):
+            for sub in (0, 1):
+                out.append(Inst(decode_total, dict(n=4, lows=[low], sub=sub), budget=b))
+        for low in range(16):
+            out.append(Inst(decode_total, dict(n=5, lows=[low], lo=5), budget=120,
+                            label="attempt,n=5,lows=[%d]" % low))
+    # decode_one
+    for lows in ([0, 1], [2, 3, 4], [5], [6, 7]):
+        out.append(Inst(decode_one, dict(n=7, lows=lows), budget=b))
+    # decode_mutated
+    for shape in sorted(SHAPES):
+        for op in ('replace', 'remove', 'insert'):
+            out.append(Inst(decode_mutated, dict(shape=shape, op=op), budget=b))
+    # nesting
+    hi = 5 if q else 6
+    out.append(Inst(nesting, dict(lo=0, hi=1, alphabet='all', prefix=[]), budget=b))
+    for c0 in (APP, CTX, OPEN, CLOSE):
+        for c1 in (APP, CTX, OPEN, CLOSE):
+            out.append(Inst(nesting, dict(lo=2, hi=hi, alphabet='all', prefix=[c0, c1]), budget=b))
+    out.append(Inst(nesting, dict(lo=0, hi=8 if q else 10, alphabet='brackets', prefix=[]), budget=b))
+    if not q:
+        out.append(Inst(nesting, dict(lo=0, hi=0, alphabet='ctx+brackets', prefix=[]), budget=b))
+        for c0 in (CTX, OPEN, CLOSE):
+            out.append(Inst(nesting, dict(lo=1, hi=8, alphabet='ctx+brackets', prefix=[c0]), budget=b))
+    return out
